@@ -327,10 +327,15 @@ impl ZchState {
         }
         let mut is_prioritized_activation = false;
         if !matches!(activation, HasValue(..)) {
-            activation = self
+            let standalone_activation = self
                 .zch_chords
                 .0
                 .ssm_get_or_is_subset_ksorted(self.zchd.zchd_input_keys.zchik_keys());
+            // Keys that are part of a followup chord are still a partial chord
+            // even if no standalone chord contains them.
+            if !(matches!(activation, IsSubset) && matches!(standalone_activation, Neither)) {
+                activation = standalone_activation;
+            }
         } else {
             is_prioritized_activation = true;
         }
